@@ -21,6 +21,11 @@ def tla_script(threads, opfmt):
 
 
 def write_mcg(dirname, base, script_tla, step_expr="MCStep(p)", extra_defs="", extra_next="", ret_pred='pc[p] = "ret"'):
+    if step_expr is None:
+        # the wrapper already names its kinds of step (MCCall / MCPoll / MCUnpark / MCOp / MCRet)
+        with open(os.path.join(dirname, "MCG.tla"), "w") as f:
+            f.write("---- MODULE MCG ----\nEXTENDS %s\nScriptG == %s\n%s\nGNext == MCNext\n====\n" % (base, script_tla, extra_defs))
+        return
     txt = """---- MODULE MCG ----
 EXTENDS %s
 ScriptG == %s
@@ -162,6 +167,9 @@ def edge_cover(edges, init, max_paths=None):
     return paths, len(all_edges), len(all_edges) - len(uncovered)
 
 
+STEP_LABELS = ("GCall", "MCCall", "GOp", "MCPoll", "MCUnpark", "MCOp")
+
+
 def schedules_of(paths):
     """thread ids of the steps that are scheduler steps in the harness (calls and operations; returns are not)"""
     out = []
@@ -169,7 +177,7 @@ def schedules_of(paths):
         sch = []
         started = set()
         for (lab, t, _dst) in p:
-            if lab not in ("GCall", "MCCall", "GOp") or t < 0:
+            if lab not in STEP_LABELS or t < 0:
                 continue
             if t not in started:
                 started.add(t)
@@ -205,7 +213,7 @@ def replay_cover(c, name, base, script_tla, mc_consts, scenario, trace_module, t
         for i, sch in enumerate(s_["explore"]["schedules"]):
             sched_of[(s_["id"], i + 1)] = tuple(sch)
     diverged = set((x["scn"], x["run"]) for x in runs if x.get("diverged", -1) >= 0)
-    incomplete = set((x["scn"], x["run"]) for x in runs if x["outcome"] != "complete")
+    incomplete = set((x["scn"], x["run"]) for x in runs if x["outcome"] in ("stalled", "steplimit"))
     rejected = set((m["run"]["scn"], m["run"]["run"]) for m in v["mismatches"]) | set((x["scn"], x["run"]) for x in v.get("unvalidated", []))
     other_steps = set()
     if strict:
@@ -218,7 +226,7 @@ def replay_cover(c, name, base, script_tla, mc_consts, scenario, trace_module, t
                     e = json.loads(line)
                     cur = (e["x"]["scn"], e["x"]["run"])
                     got[cur] = []
-                elif cur is not None and ('"k":"call"' in line or '"k":"op"' in line):
+                elif cur is not None and ('"k":"call"' in line or '"k":"op"' in line or '"k":"unpark"' in line):
                     e = json.loads(line)
                     got[cur].append(e["t"])
         for key, sch in sched_of.items():
